@@ -296,8 +296,11 @@ def run(ck):
     import logging
     logging.getLogger("spsdk.crypto.signature_provider").setLevel(logging.ERROR)  # "unexpected length" warnings of get_signature
 
+    import time
+    marks = [("start", time.time())]
     ck.lean_obligations(generated=["KeysTables"])
     drv = ck.driver()
+    marks.append(("lean", time.time()))
     rng = ck.rng
     scratch = Path(os.environ.get("VERIF_SCRATCH", "/tmp/C08"))
     scratch.mkdir(parents=True, exist_ok=True)
@@ -434,6 +437,7 @@ def run(ck):
             s.expect(cutils.encode_dss_signature(r0, s0) == b, ("dec", b), "decoder accepts a non-canonical encoding (decode then encode differs)", real)
     corr(s, reqs)
 
+    marks.append(("before: 2. ECDSASignature", time.time()))
     # ================================================================== 2. ECDSASignature parse / export / sniffing, serialize, get_signature
     class _FixedSP(SignatureProvider):
         """signature provider whose `sign` returns a prepared byte string (what an HSM / plugin provider would return)"""
@@ -560,6 +564,7 @@ def run(ck):
     corr(s, reqs)
     ck.extra["ecdsa_sig_counts"] = hits
 
+    marks.append(("before: keys of this run", time.time()))
     # ================================================================== keys of this run
     keys = []  # (label, private key object)
     for curve, c in CURVES.items():
@@ -603,6 +608,7 @@ def run(ck):
         o = rsa_other[bits]
         return o if o is not k else [kk for ll, kk in keys if isinstance(kk, PrivateKeyRsa) and kk.key_size == bits and kk is not k][0]
 
+    marks.append(("before: 3. key serialisation", time.time()))
     # ================================================================== 3. key serialisation
     s = ck.stream("key_serialisation", "every key of the run (P-256/384/521 incl. leading-zero X / Y, d=1, d=n-1; RSA-2048 generated from seeded primes; "
                   "RSA 2048/3072/4096 from tests data; thorough: generated 3072/4096): private export PEM/DER x password {none, ascii, non-ascii} -> "
@@ -757,6 +763,7 @@ def run(ck):
                 pub_parse_reqs(b[:-3] + b"\x01\x00\x00", "blob-e-even")
     corr(s, reqs_pub)
 
+    marks.append(("before: 4. get_file_encodings", time.time()))
     # ================================================================== 4. get_file_encodings (UTF-8 + "----")
     s = ck.stream("file_encoding", "every 1- and 2-byte string followed by '----' (exhaustive), 3/4-byte sequences over the boundary bytes of every UTF-8 "
                   "lead-byte class followed by '----', dashes split by other bytes, PEM / DER exports of the run's keys with one byte changed; "
@@ -780,6 +787,7 @@ def run(ck):
         s.expect(real == "ok:" + want, b, "get_file_encodings is not 'valid UTF-8 text containing ----'", real, want)
     corr(s, reqs)
 
+    marks.append(("before: 5. sign / verify", time.time()))
     # ================================================================== 5. sign / verify
     s = ck.stream("sign_verify", "every key x hash {sha256, sha384, sha512 (+sha1 thorough)} x {PKCS#1 v1.5, PSS | raw, DER} x {message, pre-hashed}: SPSDK verify, "
                   "cryptography called directly, pure-Python RSA / ECDSA verifier; negative: single-bit changes of message and signature, other key, "
@@ -827,7 +835,8 @@ def run(ck):
             for bit in rng.sample(range(8 * len(msg)), min(8 * len(msg), ck.budget(2, 8))):
                 neg(pyres(pub.verify_signature, sig, flip(msg, bit), halg), inp + ("msg-bit", bit), "a message with one bit changed verifies")
         if prehashed:
-            neg(pyres(pub.verify_signature, sig, flip(data, rng.randrange(8 * len(data))), halg, prehashed=True), inp + ("digest-bit",), "a digest with one bit changed verifies")
+            used = min(len(data), CURVES[curve]["n"].bit_length() // 8)  # ECDSA uses the leftmost bits of a longer digest only
+            neg(pyres(pub.verify_signature, sig, flip(data, rng.randrange(8 * used)), halg, prehashed=True), inp + ("digest-bit",), "a digest with one (used) bit changed verifies")
         neg(pyres(pub.verify_signature, sig, msg + b"\x00", halg), inp + ("msg-extended",), "an extended message verifies")
         neg(pyres(other_key(label, k).get_public_key().verify_signature, sig, data, halg, prehashed=prehashed), inp + ("other-key",), "the signature verifies under a different key")
         oh = [h for h in hnames if h != hname][0]
@@ -989,6 +998,8 @@ def run(ck):
             s.note(("verify-junk", j), nontrivial=False, cls="junk")
             s.compare(("verify-junk", j), canon(real), canon(("ok", model)))
             s.expect(real == ("ok", False), ("verify-junk", j), "a damaged signature verifies or raises", real, False)
+    marks.append(("end", time.time()))
+    ck.extra["timing_s"] = {marks[i][0]: round(marks[i][1] - marks[i - 1][1], 2) for i in range(1, len(marks))}
 
 
 def _utf8_ok(b: bytes) -> bool:
